@@ -1,10 +1,10 @@
 """C10 Rewrites are scheduled transactionally and never overlap."""
-from contracts import c_core_range, c_processing_scheduler
+from contracts import c_core_range, c_processing_scheduler, c_fill_transaction
 from standins import c10_sched
 
 
 def units():
-    return c_core_range.UNITS + c_processing_scheduler.UNITS
+    return c_core_range.UNITS + c_processing_scheduler.UNITS + c_fill_transaction.UNITS
 
 
 def standins(tier, seed):
